@@ -1,6 +1,7 @@
 import Driver.Util
 import Torf.Spec.Reuse
 import Torf.Model.ReuseSearch
+import Torf.Model.ReuseHistory
 open Lean Torf Torf.Reuse
 namespace Driver.C18
 
@@ -159,15 +160,14 @@ def foundJson (w : World) : Found → Json
 def pathCallJson (paths : Array (Option String)) (c : Call) : Json :=
   jarr [jopt jstr (paths.getD c.item none), jnat c.done, jnat c.total, matchJson c.isMatch, jopt errJson c.exc]
 
-/-- op `c18.reusePaths` : {t, fs : inode table, cwd, paths : spellings, contents : item per content id,
-    cb : null | [[path | null, isMatch]…] (calls that cancel), elapsed, fuel, maxSize}
-    ↦ what the model's search yields (spellings), the model's result / torrent / callback trace,
-    the spec's verdicts per yielded item, mustFind, hyp -/
-def reusePathsOp (j : Json) : Except String Json := do
-  let tj ← j.getObjVal? "t"
+def parseTor (tj : Json) : Except String Tor := do
   let pieces : Option (List Digest) := (getStrs tj "pieces").toOption
-  let t : Tor := ⟨← getStr tj "name", ← getBool tj "single", ← (← getArr tj "files").mapM parseFile,
-                  ← getNat tj "pl", pieces, ← getNat tj "plMin", ← getNat tj "plMax"⟩
+  return ⟨← getStr tj "name", ← getBool tj "single", ← (← getArr tj "files").mapM parseFile,
+          ← getNat tj "pl", pieces, ← getNat tj "plMin", ← getNat tj "plMax"⟩
+
+/-- one `reuse(paths)` call of the object `t` in the world described by `j`; also returns the
+    torrent afterwards (for histories) -/
+def reusePathsCore (t : Tor) (j : Json) : Except String (Json × Tor) := do
   let fs ← (← getArr j "fs").mapM parseNode
   let contents := (← (← getArr j "contents").mapM parseItem).toArray
   let content : Nat → ReadOutcome × (Nat → LocalPiece) := fun i =>
@@ -200,23 +200,70 @@ def reusePathsOp (j : Json) : Except String Json := do
         pure (p, m)
       pure (some fun c => stops.contains (ipaths.getD c.item none, c.isMatch))
   let r := reusePaths t w fuel paths cb elapsed
+  -- history independence (C18_history_independent), evaluated: the same call on the object
+  -- without hashes; and what a decider that trusts the carried hashes would answer
+  -- (an object without hashes is its own `forget`, up to the piece length, and the shortcut never fires)
+  let rf := if t.pieces.isNone then r else reusePaths (forget t 0) w fuel paths cb elapsed
+  let rm := if overflow || t.pieces.isNone then r else reuseWith isContentMatchMemo t items cb elapsed
   let hyp := wfFS fs && !overflow && wfLayout t.name t.single t.files && wfTor t &&
     items.all fun it => match it with
       | .file (.torrent c) _ => wfCand t c && (wfLayout c.name c.single c.files || !fileIdentity t c)
       | _ => true
-  return jobj [("model", jobj [("res", resJson r.1), ("after", torJson r.2.1),
+  return (jobj [("model", jobj [("res", resJson r.1), ("after", torJson r.2.1),
                                ("calls", jarr (r.2.2.map (pathCallJson ipaths)))]),
                ("found", jarr (shown.map (foundJson w))),
                ("items", jarr (items.map (itemInfo t))),
                ("mustFind", jbool (mustFind t cb.isSome items)),
                ("total", jnat (total items)),
                ("overflow", jbool overflow),
-               ("hyp", jbool hyp)]
+               ("freshSame", jbool (rf.1 == r.1 && rf.2.2 == r.2.2 &&
+                                     (r.1 != .ok true || (torJson rf.2.1).compress == (torJson r.2.1).compress))),
+               ("memoRes", resJson rm.1),
+               ("hyp", jbool hyp)], r.2.1)
+
+/-- op `c18.reusePaths` : {t, fs : inode table, cwd, paths : spellings, contents : item per content id,
+    cb : null | [[path | null, isMatch]…] (calls that cancel), elapsed, fuel, maxSize}
+    ↦ what the model's search yields (spellings), the model's result / torrent / callback trace,
+    the spec's verdicts per yielded item, mustFind, hyp -/
+def reusePathsOp (j : Json) : Except String Json := do
+  let t ← parseTor (← j.getObjVal? "t")
+  return (← reusePathsCore t j).1
+
+/-- op `c18.history` : {t : the object as made, ops : [{k: generate, hashes} | {k: setPieces, pieces | null}
+    | {k: setPl, pl} | {k: repath} | {k: reuse, …world as for c18.reusePaths…}]}
+    ↦ per operation the torrent afterwards and, for a reuse, the reply of `c18.reusePaths` -/
+def historyOp (j : Json) : Except String Json := do
+  let t0 ← parseTor (← j.getObjVal? "t")
+  let ops ← getArr j "ops"
+  let mut t := t0
+  let mut out : Array Json := #[]
+  for o in ops do
+    let k ← getStr o "k"
+    match k with
+    | "generate" =>
+      t := (stepWith isContentMatch t0 t (.generate (← getStrs o "hashes"))).1
+      out := out.push (jobj [("after", torJson t)])
+    | "setPieces" =>
+      t := (stepWith isContentMatch t0 t (.setPieces (getStrs o "pieces").toOption)).1
+      out := out.push (jobj [("after", torJson t)])
+    | "setPl" =>
+      t := (stepWith isContentMatch t0 t (.setPieceLength (← getNat o "pl"))).1
+      out := out.push (jobj [("after", torJson t)])
+    | "repath" =>
+      t := (stepWith isContentMatch t0 t .repath).1
+      out := out.push (jobj [("after", torJson t)])
+    | "reuse" =>
+      let (rep, t') ← reusePathsCore t o
+      t := t'
+      out := out.push (jobj [("after", torJson t), ("reuse", rep)])
+    | _ => throw s!"unknown history op {k}"
+  return jobj [("steps", Json.arr out)]
 
 def handle (op : String) (j : Json) : Except String Json :=
   match op with
   | "c18.reuse" => reuseOp j
   | "c18.reusePaths" => reusePathsOp j
+  | "c18.history" => historyOp j
   | _ => throw s!"unknown op {op}"
 
 end Driver.C18
